@@ -13,8 +13,8 @@
 (*                            read, no lock)                               *)
 (*                    Commit (write lock: re-read, proto.Equal with the   *)
 (*                            value read, save) -- the linearization point *)
-(*                    PubSnap (after the lock is released: copy the bus's *)
-(*                            listener list)                               *)
+(*                    PubSnap (after the lock is released: start sending   *)
+(*                            to the listeners copied at the commit)       *)
 (*                    Deliver (one rendezvous per listener, in order)     *)
 (*   Delete:          DRead, DCheck (no lock), DLock (write lock: compare *)
 (*                    the item's identity, retry up to 5 times, remove,   *)
@@ -43,6 +43,13 @@ CONSTANTS Writers, Subs, Ids, MaxV,
           SubKinds,            \* set of [uo : BOOLEAN, lossy : BOOLEAN] records a subscriber may be given
           InitStores,          \* set of initial contents [Ids -> -1..MaxV]
           PublishAfterUnlock, CreatedRevalidated,
+          CollectLive,         \* TRUE = the code: after a publication that met a cancelled listener the bus keeps the
+                               \* live ones of its CURRENT listener list; FALSE: it rebuilds the list from the copy it
+                               \* took when the publication began (a listener registered meanwhile is lost)
+          SnapAtCommit,        \* TRUE = the code: the listeners a change is sent to are copied while the write lock
+                               \* is still held (a subscriber registering later has the change in its seed);
+                               \* FALSE = pinned: copied when the publication begins, after the lock was released
+          MayCancel,           \* subscribers may cancel
           SubSer               \* TRUE: a subscription that takes a snapshot holds the publication mutex while it takes
                                \* the snapshot and registers (no write is between commit and publication then);
                                \* FALSE = the pinned code: a change can be both in the snapshot and delivered, and a
@@ -61,11 +68,12 @@ VARIABLES
   pub,        \* per writer: [ev, targets]  event being published and listeners still to be served
   lsn,        \* sequence of subscribers in bus registration order
   kind,       \* [Subs -> [uo]]      fixed at Init
-  spc,        \* per subscriber: "idle" | "snapped" | "open"
+  spc,        \* per subscriber: "idle" | "snapped" | "open" | "cancelled"
   snap,       \* per subscriber: the snapshot taken ([Ids -> v])
   fwd,        \* per subscriber: forwarder [st : "none"|"seeding"|"wait"|"hold", q : events still to hand over]
   view,       \* per subscriber: the consumer's fold [Ids -> v], and whether anything was received per id
-  seen,       \* per subscriber: [Ids -> BOOLEAN] received at least one event/seed for the id
+  seen,       \* per subscriber: [ids : [Ids -> BOOLEAN] received at least one event/seed for the id,
+              \*                  seqs : commit numbers of the events received, after : commits made before it registered]
   commitLog,  \* history: sequence of [w, id, pre, post, seq]
   sched       \* history: sequence of [a, p] action labels (the schedule replayed on the real code)
 
@@ -85,14 +93,15 @@ Init ==
   /\ pc = [w \in Writers |-> "start"]
   /\ loc = [w \in Writers |-> [old |-> Absent, ver |-> 0, created |-> FALSE, new |-> Absent, attempt |-> 0,
                                err |-> "none", ret |-> Absent]]
-  /\ pub = [w \in Writers |-> [id |-> CHOOSE i \in Ids : TRUE, v |-> Absent, seq |-> 0, add |-> FALSE, targets |-> <<>>]]
+  /\ pub = [w \in Writers |-> [id |-> CHOOSE i \in Ids : TRUE, v |-> Absent, seq |-> 0, add |-> FALSE, targets |-> <<>>,
+                               copy |-> <<>>, gc |-> FALSE]]
   /\ lsn = <<>>
   /\ kind \in [Subs -> SubKinds]
   /\ spc = [s \in Subs |-> "idle"]
   /\ snap = [s \in Subs |-> [i \in Ids |-> Absent]]
   /\ fwd = [s \in Subs |-> [st |-> "none", q |-> <<>>]]
   /\ view = [s \in Subs |-> [i \in Ids |-> Absent]]
-  /\ seen = [s \in Subs |-> [i \in Ids |-> FALSE]]
+  /\ seen = [s \in Subs |-> [ids |-> [i \in Ids |-> FALSE], seqs |-> {}, after |-> 0]]
   /\ commitLog = <<>>
   /\ sched = <<>>
 
@@ -154,25 +163,31 @@ Commit(w) ==
             /\ nextVer' = nextVer + 1
             /\ commitLog' = Append(commitLog, [w |-> w, id |-> c.id, pre |-> cur.v, post |-> loc[w].new])
             /\ pub' = [pub EXCEPT ![w] = [id |-> c.id, v |-> loc[w].new, seq |-> Len(commitLog) + 1,
-                                           add |-> (cur.v = Absent), targets |-> <<>>]]
+                                           add |-> (cur.v = Absent), gc |-> FALSE,
+                                           targets |-> IF SnapAtCommit THEN lsn ELSE <<>>,
+                                           copy |-> IF SnapAtCommit THEN lsn ELSE <<>>]]
             /\ loc' = [loc EXCEPT ![w].ret = loc[w].new]
             /\ pc' = [pc EXCEPT ![w] = "pubsnap"]
             /\ UNCHANGED mu
   /\ UNCHANGED <<prog, lsn, kind, spc, snap, fwd, view, seen>>
 
-EndPublish(w) == /\ pc' = [pc EXCEPT ![w] = "done"]
-                 /\ loc' = [loc EXCEPT ![w].err = "OK"]
-                 /\ mu' = Drop(w, IF mu.w = w THEN [mu EXCEPT !.w = NoW] ELSE mu)
+Live(seq) == SelectSeq(seq, LAMBDA x : spc[x] # "cancelled")
+\* the Send returns: garbage-collect the bus if a cancelled listener was met (gc), release the locks
+EndPublish(w, gc) == /\ pc' = [pc EXCEPT ![w] = "done"]
+                     /\ loc' = [loc EXCEPT ![w].err = "OK"]
+                     /\ mu' = Drop(w, IF mu.w = w THEN [mu EXCEPT !.w = NoW] ELSE mu)
+                     /\ lsn' = IF ~gc THEN lsn ELSE IF CollectLive THEN Live(lsn) ELSE Live(pub[w].copy)
 
 PubSnap(w) ==
   /\ pc[w] = "pubsnap"
   /\ Step("PubSnap", w)
-  /\ IF lsn = <<>>
-       THEN EndPublish(w) /\ UNCHANGED pub
-       ELSE /\ pub' = [pub EXCEPT ![w].targets = lsn]
+  /\ LET tg == IF SnapAtCommit THEN pub[w].targets ELSE lsn IN
+     IF tg = <<>>
+       THEN EndPublish(w, FALSE) /\ UNCHANGED pub
+       ELSE /\ pub' = [pub EXCEPT ![w].targets = tg, ![w].copy = tg]
             /\ pc' = [pc EXCEPT ![w] = "deliver"]
-            /\ UNCHANGED <<loc, mu>>
-  /\ UNCHANGED <<store, nextVer, prog, lsn, kind, spc, snap, fwd, view, seen, commitLog>>
+            /\ UNCHANGED <<loc, mu, lsn>>
+  /\ UNCHANGED <<store, nextVer, prog, kind, spc, snap, fwd, view, seen, commitLog>>
 
 \* A subscriber without backpressure has a lossy stage between the bus and its forwarder: the stage always
 \* takes the event; what the forwarder already holds (head of q) stays, behind it at most one pending change
@@ -192,13 +207,15 @@ Deliver(w) ==
   LET s == Head(pub[w].targets)
       e == [id |-> pub[w].id, v |-> pub[w].v, seq |-> pub[w].seq, add |-> pub[w].add] IN
   /\ pc[w] \in {"deliver", "ddeliver"} /\ pub[w].targets # <<>>
-  /\ kind[s].lossy \/ fwd[s].st = "wait"
+  /\ spc[s] = "cancelled" \/ kind[s].lossy \/ fwd[s].st = "wait"
   /\ Step("Deliver", w)
-  /\ fwd' = [fwd EXCEPT ![s] = [st |-> IF fwd[s].st = "wait" THEN "hold" ELSE fwd[s].st,
-                                 q |-> IF kind[s].lossy THEN Pipe(fwd[s].q, e) ELSE <<e>>]]
-  /\ pub' = [pub EXCEPT ![w].targets = Tail(pub[w].targets)]
-  /\ IF Len(pub[w].targets) = 1 THEN EndPublish(w) ELSE UNCHANGED <<pc, loc, mu>>
-  /\ UNCHANGED <<store, nextVer, prog, lsn, kind, spc, snap, view, seen, commitLog>>
+  /\ LET gone == spc[s] = "cancelled"  gc == pub[w].gc \/ gone IN
+     /\ fwd' = IF gone THEN fwd      \* a cancelled listener is skipped (and the bus collected afterwards)
+                ELSE [fwd EXCEPT ![s] = [st |-> IF fwd[s].st = "wait" THEN "hold" ELSE fwd[s].st,
+                                         q |-> IF kind[s].lossy THEN Pipe(fwd[s].q, e) ELSE <<e>>]]
+     /\ pub' = [pub EXCEPT ![w].targets = Tail(pub[w].targets), ![w].gc = gc]
+     /\ IF Len(pub[w].targets) = 1 THEN EndPublish(w, gc) ELSE UNCHANGED <<pc, loc, mu, lsn>>
+  /\ UNCHANGED <<store, nextVer, prog, kind, spc, snap, view, seen, commitLog>>
 
 ----------------------------------------------------------------------------
 (* Delete                                                                   *)
@@ -245,7 +262,8 @@ DLock(w) ==
             /\ IF lsn = <<>>
                  THEN /\ pc' = [pc EXCEPT ![w] = "done"] /\ UNCHANGED <<pub, mu>>
                       /\ loc' = [loc EXCEPT ![w].ret = cur.v, ![w].err = "OK"]
-                 ELSE /\ pub' = [pub EXCEPT ![w] = [id |-> c.id, v |-> Absent, seq |-> Len(commitLog) + 1, add |-> FALSE, targets |-> lsn]]
+                 ELSE /\ pub' = [pub EXCEPT ![w] = [id |-> c.id, v |-> Absent, seq |-> Len(commitLog) + 1, add |-> FALSE,
+                                                     targets |-> lsn, copy |-> lsn, gc |-> FALSE]]
                       /\ pc' = [pc EXCEPT ![w] = "ddeliver"]
                       /\ loc' = [loc EXCEPT ![w].ret = cur.v]
                       /\ mu' = Take(w, [mu EXCEPT !.w = w])  \* Delete sends while holding the write lock
@@ -281,7 +299,17 @@ SubListen(s) ==
   /\ mu' = [mu EXCEPT !.r = mu.r \ {s}, !.ser = IF mu.ser = 0 - s THEN NoW ELSE mu.ser]
   /\ LET seeds == IF kind[s].uo THEN <<>> ELSE SeedSeq(Ids, snap[s]) IN
      fwd' = [fwd EXCEPT ![s] = [st |-> IF seeds = <<>> THEN "wait" ELSE "seeding", q |-> seeds]]
-  /\ UNCHANGED <<store, nextVer, prog, pc, loc, pub, kind, snap, view, seen, commitLog>>
+  /\ seen' = [seen EXCEPT ![s].after = Len(commitLog)]
+  /\ UNCHANGED <<store, nextVer, prog, pc, loc, pub, kind, snap, view, commitLog>>
+
+\* the subscriber's context is cancelled: it stops counting as a reader; the bus forgets it at the next
+\* publication that meets it
+SubCancel(s) ==
+  /\ spc[s] = "open"
+  /\ Step("SubCancel", s)
+  /\ spc' = [spc EXCEPT ![s] = "cancelled"]
+  /\ fwd' = [fwd EXCEPT ![s] = [st |-> "none", q |-> <<>>]]
+  /\ UNCHANGED <<store, nextVer, mu, prog, pc, loc, pub, lsn, kind, snap, view, seen, commitLog>>
 
 \* the consumer takes the next seed or the held event
 Recv(s) ==
@@ -289,7 +317,7 @@ Recv(s) ==
   /\ Step("Recv", s)
   /\ LET e == Head(fwd[s].q) IN
      /\ view' = [view EXCEPT ![s][e.id] = e.v]
-     /\ seen' = [seen EXCEPT ![s][e.id] = TRUE]
+     /\ seen' = [seen EXCEPT ![s].ids[e.id] = TRUE, ![s].seqs = seen[s].seqs \cup {e.seq}]
      /\ fwd' = [fwd EXCEPT ![s] = [st |-> IF Len(fwd[s].q) = 1 THEN "wait"
                                           ELSE IF fwd[s].st = "seeding" /\ ~Head(Tail(fwd[s].q)).add THEN "hold"
                                           ELSE IF fwd[s].st = "seeding" /\ Head(Tail(fwd[s].q)).seq # 0 THEN "hold"
@@ -300,7 +328,7 @@ Recv(s) ==
 ----------------------------------------------------------------------------
 Next == \/ \E w \in Writers : Read(w) \/ Change(w) \/ Commit(w) \/ PubSnap(w) \/ Deliver(w)
                               \/ DRead(w) \/ DCheck(w) \/ DLock(w)
-        \/ \E s \in Subs : SubSnap(s) \/ SubListen(s) \/ Recv(s)
+        \/ \E s \in Subs : SubSnap(s) \/ SubListen(s) \/ Recv(s) \/ (MayCancel /\ SubCancel(s))
 Spec == Init /\ [][Next]_vars
 
 \* the fingerprint leaves out the histories
@@ -336,8 +364,11 @@ LoserCodes == \A w \in Writers : pc[w] = "done" =>
 AllDone == \A w \in Writers : pc[w] = "done"
 Drained(s) == spc[s] = "open" /\ fwd[s].st = "wait"
 Converged == AllDone => \A s \in Subs : Drained(s) =>
-               \A i \in Ids : (~kind[s].uo \/ seen[s][i]) => view[s][i] = store[i].v
-\* nothing committed after the subscriber registered is missed: it is delivered or pending
+               \A i \in Ids : (~kind[s].uo \/ seen[s].ids[i]) => view[s][i] = store[i].v
+\* nothing committed after a backpressured subscriber registered is missed: once everything is handed over it
+\* has received the event of every such commit
+NoCommitMissed == AllDone => \A s \in Subs : Drained(s) /\ ~kind[s].lossy =>
+                    \A k \in 1..Len(commitLog) : k > seen[s].after => k \in seen[s].seqs
 NoLock == mu.w = NoW \/ pc[mu.w] \in {"deliver", "ddeliver", "pubsnap"}
 TypeOK == /\ mu.w \in Writers \cup {NoW} /\ mu.r \subseteq Subs /\ NoLock
           /\ mu.ser \in Writers \cup {NoW} \cup { 0 - s : s \in Subs }
